@@ -187,6 +187,36 @@ def run(prog: Program, col: Collector, tier: str, refs: Optional[Refs] = None, c
               "the term that carries the total mass is not the logsumexp of the flattened logits over their last axis, declared over the batch inputs: the mass of the sample differs "
               "from the mass of the tensor for some batch element", ts.loc(norms[0]) if norms else ts.loc())
 
+    # ---------------------------------------------------------------- R14.6
+    col.rule("R14.6", "a function that discards the shift returned by _compress_rank does not compute a normaliser from the compressed factors", floor=1)
+    n6 = 0
+    for f in prog.functions_in(prog.modules["funsor.gaussian"]):
+        if isinstance(f.node, ast.Lambda):
+            continue
+        for st in ast.walk(f.node):
+            if not (isinstance(st, ast.Assign) and len(st.targets) == 1 and isinstance(st.targets[0], ast.Tuple) and len(st.targets[0].elts) == 3 and isinstance(st.value, ast.Call)
+                    and norm(st.value.func).endswith("_compress_rank")):
+                continue
+            n6 += 1
+            a_, b_, c_ = (norm(e) for e in st.targets[0].elts)
+            used = any(isinstance(y, ast.Name) and y.id == c_ and isinstance(y.ctx, ast.Load) for y in ast.walk(f.node)) and c_ != "_"
+            if used:
+                col.ok(f"{f.fq}::{norm(st)[:60]}", "the compression shift is kept and used", f.loc(st), nontrivial=False)
+                continue
+            # derived names of the compressed factors (after this statement)
+            derived = {a_, b_}
+            for _ in range(3):
+                for d in ast.walk(f.node):
+                    if isinstance(d, ast.Assign) and d.lineno > st.lineno and any(isinstance(y, ast.Name) and y.id in derived for y in ast.walk(d.value)):
+                        derived |= {y.id for t in d.targets for y in ast.walk(t) if isinstance(y, ast.Name)}
+            logdets = [c for c in ast.walk(f.node) if isinstance(c, ast.Call) and norm(c.func).endswith("_log_det_tri") and c.lineno > st.lineno
+                       and any(isinstance(y, ast.Name) and y.id in derived for y in ast.walk(c))]
+            col.check(not logdets, f"{f.fq}::{norm(st)[:60]}", "the compressed factors are used for the draw only; the mass comes from elsewhere (self.log_normalizer)",
+                      f"the shift returned by _compress_rank is discarded, yet `{norm(logdets[0])[:40] if logdets else ''}` computes a log-normaliser from the compressed factor: the "
+                      "quadratic form was shifted by that constant during compression, so for a wide (rank > dim) Gaussian the mass of the sample differs from the Gaussian's",
+                      f.loc(logdets[0]) if logdets else f.loc(st))
+    col.cur.analysed["discarded_compression_shifts"] = n6
+
     # ---------------------------------------------------------------- R14.5
     col.rule("R14.5", "nested _sample calls receive the sample inputs unchanged and a key derived from the one received", floor=4)
     n5 = 0
